@@ -283,6 +283,10 @@ def gen_engine_spec(rng, rated, curve_emissions=None, dual=None, speed=None):
             if len(em["points"]) > 1 and rng.random() < 0.25:
                 top = max(q[1] for q in em["points"])
                 em["points"] = [[q[0], float(np.round(top * q[0] * q[0], 3))] for q in em["points"]]
+        for em in e["emissions"]:       # a table may list the points from full load downwards, or in no order at all
+            r = rng.random()
+            if len(em["points"]) > 1 and r < 0.3:
+                em["points"] = em["points"][::-1] if r < 0.2 else [em["points"][i] for i in rng.permutation(len(em["points"]))]
         if "NOX" in species and rng.random() < 0.7:
             e["nox"] = "CURVE"
     if dual is None:
